@@ -171,27 +171,29 @@ impl<S: WebSocket, T: TimestampProvider> Task<S, T> {
         // The keepalive clock starts when the task does, not when the `Multiplexor` was built:
         // no `Ping` could be sent and no `Pong` noticed before now.
         *self.last_pong_timestamp.lock() = T::now();
-        let (should_drain_frame_rx, res) = futures_util::select_biased! {
+        // `peer_closed`: the peer has sent `Close` or ended its side, it has nothing more to say
+        let (should_drain_frame_rx, peer_closed, res) = futures_util::select_biased! {
             r = self.process_ws_next().fuse() => {
                 debug!("`process_ws_next` finished: {r:?}");
-                (false, r)
+                (false, r.is_ok(), r)
             }
             r = self.process_message_to_send_task(&mut tx_msg_rx).fuse() => {
                 debug!("`process_message_to_send_task` task finished: {r:?}");
-                (false, r)
+                (false, false, r)
             }
             r = self.schedule_ping_task().fuse() => {
                 debug!("`schedule_ping_task` task errored: {r:?}");
-                (false, r)
+                (false, false, r)
             }
             () = self.process_dropped_flows_task(&mut dropped_flows_rx).fuse() => {
                 debug!("`process_dropped_flows_task` task finished");
-                (true, Ok(()))
+                (true, false, Ok(()))
             }
         };
         self.wind_down(
             should_drain_frame_rx,
             res.is_err(),
+            peer_closed,
             tx_msg_rx,
             dropped_flows_rx,
         )
@@ -375,7 +377,10 @@ impl<S: WebSocket, T: TimestampProvider> Task<S, T> {
                 msg = next => match msg {
                     Some(Ok(msg)) => {
                         debug!("processing message while flushing {msg:?}");
-                        self.process_message(msg, true).await.ok();
+                        if self.process_message(msg, true).await.unwrap_or(false) {
+                            // `Close`: nothing follows it
+                            *source_open = false;
+                        }
                     }
                     Some(Err(_)) | None => *source_open = false,
                 },
@@ -389,6 +394,7 @@ impl<S: WebSocket, T: TimestampProvider> Task<S, T> {
         &self,
         should_drain_msg_rx: bool,
         mut connection_broken: bool,
+        peer_closed: bool,
         mut tx_msg_rx: mpsc::UnboundedReceiver<Message>,
         mut dropped_flows_rx: mpsc::UnboundedReceiver<DroppedFlow>,
     ) {
@@ -413,8 +419,10 @@ impl<S: WebSocket, T: TimestampProvider> Task<S, T> {
         // If it is `false`, then we reached here because the peer is now not interested
         // in our connection anymore, and we should just mind our own business and serve the connections
         // on our end.
-        // Whether the peer may still send us something
-        let mut source_open = true;
+        // Whether the peer may still send us something. Nothing follows its `Close`: waiting
+        // for the transport to end as well (a WebSocket client does, after the closing
+        // handshake) would make our streams and callers depend on a peer that may be gone.
+        let mut source_open = !peer_closed;
         if should_drain_msg_rx {
             // Since we've called `close` on `tx_frame_rx`, this loop will
             // terminate once existing frames are processed.
@@ -497,7 +505,10 @@ impl<S: WebSocket, T: TimestampProvider> Task<S, T> {
                     .await
             {
                 debug!("processing remaining message after closure {msg:?}");
-                self.process_message(msg, true).await.ok();
+                if self.process_message(msg, true).await.unwrap_or(false) {
+                    // `Close`: the peer has ended its side
+                    break;
+                }
             }
         }
         // Finally, we send EOF to all established streams.
